@@ -67,9 +67,11 @@ type ServeOpts struct {
 func Serve(sockpath, dbpath string, opts ServeOpts) int {
 	logger.Println("pid is", syscall.Getpid())
 	logger.Println("going to listen", sockpath)
+	verifPause("d-start", sockpath, 0)
 	listener, err := net.Listen("unix", sockpath)
 	if err != nil {
 		logger.Printf("failed to listen on %s: %v", sockpath, err)
+		verifPause("d-listen-err", sockpath, 0)
 		logger.Println("aborting")
 		return 2
 	}
@@ -79,12 +81,14 @@ func Serve(sockpath, dbpath string, opts ServeOpts) int {
 		// it may already belong to a newly started daemon.
 		ul.SetUnlinkOnClose(false)
 	}
+	verifPause("d-listen", sockpath, 0)
 
 	st, err := store.NewStore(dbpath)
 	if err != nil {
 		logger.Printf("failed to create storage: %v", err)
 		logger.Printf("serving anyway")
 	}
+	verifPause("d-open", sockpath, verifBool(err == nil))
 
 	server := rpc.NewServer()
 	version := api.Version
@@ -162,6 +166,7 @@ loop:
 		}
 	}
 
+	verifPause("d-remove", sockpath, len(conns))
 	err = os.Remove(sockpath)
 	if err != nil {
 		logger.Printf("failed to remove socket %s: %v", sockpath, err)
@@ -172,6 +177,7 @@ loop:
 			logger.Printf("failed to close storage: %v", err)
 		}
 	}
+	verifPause("d-close", sockpath, 0)
 	err = listener.Close()
 	if err != nil {
 		logger.Printf("failed to close listener: %v", err)
